@@ -75,7 +75,7 @@ def run(res):
                     for f2 in forms:
                         if f1 is not f2:
                             seqs.append((name, set(opts), [f1, f2]))
-        for _ in range(12 if res.tier == "quick" else 120):
+        for _ in range(12 if res.tier == "quick" else 600):
             seqs.append((name, set(opts), [rng.choice(FORMS) for _ in range(3)]))
     seq_meta = []
     for name, opts, forms in seqs:
